@@ -1,0 +1,7 @@
+//go:build verif
+
+package pkcs7
+
+// Ber2Der exposes the BER-to-DER normaliser to the deterministic-simulation
+// harness (build tag "verif" only).
+var Ber2Der = ber2der
